@@ -8,7 +8,7 @@ CONSTANTS
   MaxPasses = 4
   MaxLen = 4
   MaxText = 4
-  Rtl = 0
+  Rtl = 1
   NFeat = 0
   Ops <- OpsAll
   Emit = TRUE
